@@ -24,9 +24,11 @@ LEVEL = ('narrow: decides four code-shape facts two of whose violations were con
          'from-scratch builder avoids the capacity comparison (H3 MUST-PASS); tasks leave a profile '
          'only where a mandatory part is undone (H15); the per-profile explanation cache is '
          'initialised from the profile only (H16). create_tasks keeps a task iff usage and duration '
-         'are both positive (H17 TABLE; zero-duration defect D21 repaired). Everything else about the '
-         '144 variants — in particular the numbers they compute and zero-duration tasks — is NOT '
-         'decided')
+         'are both positive (H17 TABLE; zero-duration defect D21 repaired). Event registration of '
+         'negative-scale start-time views (H18 = C12-V9), registration of two tasks over one variable '
+         '(H19 = C01-S5c), the FlatZinc builtin compiled to the cumulative constructor only (H20 = '
+         'C13-F3). Everything else about the 144 variants — in particular the numbers they compute and'
+         ' zero-duration tasks — is NOT decided')
 TECHNIQUE = "static analysis: must-pass / sentinel taint / dominance rules over rustc MIR"
 
 
